@@ -355,6 +355,9 @@ pub fn install_panic_hook() {
             "<non-string panic>".into()
         };
         let th = std::thread::current().name().unwrap_or("?").to_string();
+        if std::env::var("AXV_PANIC_PRINT").is_ok() {
+            eprintln!("PANIC [{}] {}: {}", th, loc, msg.chars().take(300).collect::<String>());
+        }
         if let Ok(mut g) = PANICS.lock() {
             g.push(PanicRec { thread: th, location: loc, message: msg.chars().take(300).collect() });
         }
